@@ -673,3 +673,10 @@ func init() {
 		Assumptions: []string{"RSA-OAEP hides its input and crypto/rand is fresh (cryptographic assumptions, outside the theorem)", "1024-bit test key"},
 	})
 }
+
+// rule addenda (rounds 9-12): what the evidence says about the coverage of a run
+func init() {
+	if p := registry["C09"]; p != nil {
+		p.Rule += " lw lines: nonces of several kinds (incl. ending in NUL), password lengths 0..capacity with the empty password among them, the packet size of the login as a parameter; lwc: two logins with one configuration and a password changed in between."
+	}
+}
